@@ -128,5 +128,10 @@ def tryExtend (s : Stack α) (iter : List α) : Except StackErr Unit × Stack α
   | [] =>
     (.ok (), { s with values := vals.take cur ++ (vals.drop cur).reverse }, taken.length)
 
+/-- the stack with maximum `m` whose elements are `l`, **top first** (specification view) -/
+def ofTop (m : Nat) (l : List α) : Stack α := ⟨m, l.reverse⟩
+/-- the elements, top first (specification view) -/
+def tops (s : Stack α) : List α := s.values.reverse
+
 end Stack
 end Uec
